@@ -58,7 +58,13 @@ Init ==
     /\ pend = <<>>
     /\ last = [kind |-> "none"]
 
-Idle == pend = <<>>
+(* The first step of every behaviour only marks it as started: the initial     *)
+(* states stay cheap to enumerate (TLC does that single-threaded) and the     *)
+(* invariants, guarded by Started, are evaluated by the parallel workers.     *)
+Started == last.kind # "none"
+Begin == ~Started /\ last' = [kind |-> "ok"]
+         /\ UNCHANGED <<inst, filt, sched, nxt, jfree, mfree, cache, subs, olog, ghost, pend>>
+Idle == pend = <<>> /\ Started
 
 -----------------------------------------------------------------------------
 (* the start rule, with its mutants *)
@@ -183,7 +189,8 @@ CreateOrGetResult(cls) ==
 
 -----------------------------------------------------------------------------
 NextCore ==                      \* C01 C02 C06: dispatches only
-    \E j \in Jobs(inst) : \E m \in Machines(inst) : Dispatch(j, m)
+    \/ Begin
+    \/ \E j \in Jobs(inst) : \E m \in Machines(inst) : Dispatch(j, m)
 NextFaults ==                    \* + C09: rejected requests, resets
     \/ NextCore
     \/ \E j \in Jobs(inst) : \E p \in 1..JobLen(inst, j) : \E m \in 0..(NM(inst) + 1) : Reject(j, p, m)
@@ -209,50 +216,104 @@ TypeOK ==
     /\ \A j \in Jobs(inst) : nxt[j] \in 1..(JobLen(inst, j) + 1)
 
 (* C01 *)
-Inv_Feasible == Feasible(inst, sched)
-Inv_CompleteAfterN == (NumScheduled(sched) = NumOps(inst)) <=> Complete(inst, sched)
+Inv_Feasible == Started =>
+   (
+ Feasible(inst, sched)
+   )
+Inv_CompleteAfterN == Started =>
+   (
+ (NumScheduled(sched) = NumOps(inst)) <=> Complete(inst, sched)
+   )
 (* C02 *)
-Inv_Tracking == TrackingOK(inst, State)
-Inv_SemiActive == SemiActive(inst, sched)
-Inv_Makespan == Makespan(inst, sched) = MakespanDef(inst, sched)
+Inv_Tracking == Started =>
+   (
+ TrackingOK(inst, State)
+   )
+Inv_SemiActive == Started =>
+   (
+ SemiActive(inst, sched)
+   )
+Inv_Makespan == Started =>
+   (
+ Makespan(inst, sched) = MakespanDef(inst, sched)
+   )
 (* C05 *)
-Inv_CacheCoherent == \A q \in DOMAIN cache : cache[q] = QueryValue(inst, State, filt, q)
-Inv_Partitions ==
+Inv_CacheCoherent == Started =>
+   (
+ \A q \in DOMAIN cache : cache[q] = QueryValue(inst, State, filt, q)
+   )
+Inv_Partitions == Started =>
+   (
+
     LET S == ScheduledOps(sched)  U == UnscheduledOps(inst, sched)
         G == OngoingOps(inst, State, filt)  C == CompletedOps(inst, State, filt)
     IN /\ S \cup U = AllOps(inst) /\ S \cap U = {}
        /\ G \cup C = S /\ G \cap C = {}
        /\ UncompletedOps(inst, State, filt) = U \cup G
        /\ S = Rng(ScheduledSeq(inst, State)) /\ U = Rng(UnscheduledSeq(inst, State))
+   )
 (* C06 *)
 (* stated one step ahead (as state predicates over every accepted dispatch) *)
 Succs == {CommitOf(inst, State, jm[1], jm[2]) :
             jm \in {x \in Jobs(inst) \X Machines(inst) :
                        nxt[x[1]] <= JobLen(inst, x[1]) /\ Accepts(x[1], nxt[x[1]], x[2])}}
 TimeCarveOut == filt = <<>> \/ PositiveDurations(inst)
-Inv_TimeMonotone ==
+Inv_TimeMonotone == Started =>
+   (
+
     TimeCarveOut => \A n \in Succs : Now(inst, n, filt) >= Now(inst, State, filt)
-Inv_CompletedGrows ==
+   )
+Inv_CompletedGrows == Started =>
+   (
+
     TimeCarveOut => \A n \in Succs : CompletedOps(inst, State, filt) \subseteq CompletedOps(inst, n, filt)
-Inv_EndNow == Complete(inst, sched) => Now(inst, State, filt) = Makespan(inst, sched)
-Inv_FilterKeepsNow == PositiveDurations(inst) => Now(inst, State, filt) = Now(inst, State, <<>>)
+   )
+Inv_EndNow == Started =>
+   (
+ Complete(inst, sched) => Now(inst, State, filt) = Makespan(inst, sched)
+   )
+Inv_FilterKeepsNow == Started =>
+   (
+ PositiveDurations(inst) => Now(inst, State, filt) = Now(inst, State, <<>>)
+   )
 (* C07 (deadlock freedom of the installed composition) *)
-Inv_NoDeadlock == ~Complete(inst, sched) => Avail(inst, State, filt) # <<>>
+Inv_NoDeadlock == Started =>
+   (
+ ~Complete(inst, sched) => Avail(inst, State, filt) # <<>>
+   )
 (* C09 *)
-Inv_RejectChangesNothing ==
+Inv_RejectChangesNothing == Started =>
+   (
+
     (Idle /\ last.kind = "rejected") => (State = last.pre /\ olog = last.preLog /\ subs = last.preSubs)
+   )
 (* C10 *)
-Inv_Notifications == Idle => \A o \in Obs : olog[o] = ghost[o]
-Inv_NotifyInOrder ==     \* what is still pending is a suffix of the subscribers, in order
+Inv_Notifications == Started =>
+   (
+ Idle => \A o \in Obs : olog[o] = ghost[o]
+   )
+Inv_NotifyInOrder == Started =>
+   (
+     \* what is still pending is a suffix of the subscribers, in order
     \A i, k \in DOMAIN pend : i < k =>
         \E a, b \in DOMAIN subs : a < b /\ subs[a] = pend[i][2] /\ subs[b] = pend[k][2]
-Inv_SeesPostState == \A o \in Obs : \A i \in DOMAIN olog[o] : olog[o][i][1] # "stale"
-Inv_Singleton ==
+   )
+Inv_SeesPostState == Started =>
+   (
+ \A o \in Obs : \A i \in DOMAIN olog[o] : olog[o][i][1] # "stale"
+   )
+Inv_Singleton == Started =>
+   (
+
     \A a, b \in DOMAIN subs : (a # b /\ IsSingletonKind(ObsKinds[subs[b]]) /\ a < b)
                                  => ~IsInstanceOf(ObsKinds[subs[a]], ObsKinds[subs[b]])
-Inv_History ==           \* the history observer's record equals the dispatch sequence since reset
+   )
+Inv_History == Started =>
+   (
+           \* the history observer's record equals the dispatch sequence since reset
     Idle => \A o \in Rng(subs) : \A i \in DOMAIN olog[o] :
                olog[o][i][1] = "update" =>
                   LET e == olog[o][i][2] IN <<e[1], e[2], e[4]>> \in Rng(sched[e[3]])
                      \/ \E k \in (i + 1)..Len(olog[o]) : olog[o][k][1] = "reset"
+   )
 =============================================================================
